@@ -108,6 +108,7 @@ func TestC10Equiv(t *testing.T) {
 		cfg.Excluded = &excluded
 		g := NewGen(x, cfg)
 		cut := false
+		checkpointNow := false
 		fail := func(format string, a ...any) {
 			failf(t, "C10", map[string]any{"history": headLog(x.Log, 80), "unstable": cc.Unstable}, format, a...)
 		}
@@ -152,6 +153,19 @@ func TestC10Equiv(t *testing.T) {
 			if x.Setattr(r, &sz, true) != nil {
 				cut = true
 			}
+		}
+		// a SETATTR of one attribute only (atime, mtime, mode), followed at once by the comparison with a server
+		// started on the disk: what the reply showed must be there
+		acts["setattr_one_then_compare"] = func(t *rapid.T) {
+			objs := x.M.Live()
+			if cut || len(objs) == 0 {
+				t.Skip("nothing to touch")
+			}
+			if x.SetattrOne(LiveRef(pick(t, objs, "obj")), rapid.IntRange(0, 3).Draw(t, "which")) != nil {
+				cut = true
+				return
+			}
+			checkpointNow = true
 		}
 		ncheck, nAbortMod, nEvict, nAfterRebuild := 0, 0, 0, 0
 		abortsSeen := int64(0)
@@ -262,7 +276,8 @@ func TestC10Equiv(t *testing.T) {
 			if cut || x.Budget < 100 {
 				t.Skip("case cut short")
 			}
-			if steps%10 == 0 {
+			if steps%10 == 0 || checkpointNow {
+				checkpointNow = false
 				checkpoint(t)
 			}
 		}
